@@ -9,7 +9,8 @@
 EXTENDS Universe
 CONSTANTS Family,       \* "unfold" | "findlist" | "match"
           MaxEdits,
-          WithGt        \* TRUE: the '>' edit is part of the family
+          WithGt,       \* TRUE: the '>' edit is part of the family
+          UnivKinds     \* which kinds of universes the list searches run against
 VARIABLES call, edits
 vars == <<call, edits>>
 
@@ -55,14 +56,47 @@ Malform == \/ (call.span = 1 /\ N < 9 /\ call' = [call EXCEPT !.search.segs = Ap
 Edit == StarAt \/ GtAt \/ CommaAt \/ GlobAt \/ AliasLast \/ Collapse \/ AddFilter \/ Malform
 
 Universes(i) == IF Family = "unfold" THEN {""}
+                ELSE IF Family = "algebra" THEN {IF LeafTs(Templates[i].base) = {} THEN "any:all" ELSE Templates[i].base \o ":complete"}
                 ELSE LET b == Templates[i].base
                      IN IF LeafTs(b) = {} THEN {"any:all"}
-                        ELSE {b \o ":" \o k : k \in {"complete", "leafonly", "noisy"}}
+                        ELSE {b \o ":" \o k : k \in UnivKinds}
 Init == /\ edits = 0
         /\ \E i \in TIdx : \E u \in Universes(i) :
-              call = [op |-> Family, t |-> i, span |-> 0, univ |-> u,
+              call = [op |-> IF Family = "algebra" THEN "findlist" ELSE Family, t |-> i, span |-> 0, univ |-> u,
                       search |-> [segs |-> [j \in DOMAIN Templates[i].ph |-> <<FirstConcrete(Templates[i].ph[j])>>], query |-> <<>>]]
-Next == edits < MaxEdits /\ Edit /\ edits' = edits + 1
+(* ---- C10: derive, from a search, the searches the algebra relates it to ---- *)
+Alg(rule, parts, arg) == call' = [op |-> "algebra", t |-> call.t, span |-> call.span, univ |-> call.univ, search |-> Sr,
+                                  rule |-> rule, parts |-> parts, arg |-> arg]
+MaxTplLen == MaxOf({Len(Templates[i].ph) : i \in TIdx})
+SpanKeys == {TKeySeq(i)[j] : i \in TIdx, j \in 1..MaxTplLen} 
+DeriveComma == \E i \in 1..N : Len(Sr.segs[i]) > 1 /\
+                 Alg("union", [a \in 1..Len(Sr.segs[i]) |-> [Sr EXCEPT !.segs[i] = <<Sr.segs[i][a]>>]], <<"comma">>)
+DeriveCommaQ == \E i \in DOMAIN Sr.query : Len(Sr.query[i][2]) > 1 /\
+                 Alg("union", [a \in 1..Len(Sr.query[i][2]) |-> [Sr EXCEPT !.query[i] = <<Sr.query[i][1], <<Sr.query[i][2][a]>> >>]], <<"commaq">>)
+DeriveAlias == Len(Sr.segs[N]) = 1 /\ IsAlias(Sr.segs[N][1]) /\
+                 LET m == SetToSeq(AliasOf(Sr.segs[N][1])) IN
+                 Alg("union", [a \in DOMAIN m |-> [Sr EXCEPT !.segs[N] = <<m[a]>>]], <<"alias">>)
+DeriveAliasQ == \E i \in DOMAIN Sr.query : Sr.query[i][1] = LeafQueryKey /\ Len(Sr.query[i][2]) = 1 /\ IsAlias(Sr.query[i][2][1]) /\
+                 LET m == SetToSeq(AliasOf(Sr.query[i][2][1])) IN
+                 Alg("union", [a \in DOMAIN m |-> [Sr EXCEPT !.query[i] = <<LeafQueryKey, <<m[a]>> >>]], <<"aliasq">>)
+\* (filters that would ADD a level are overlays, not filters: C04 owns them)
+DeriveStarStar == call.span = 1 /\ (\A q \in DOMAIN Sr.query : Sr.query[q][1] \in TKeys(call.t)) /\ \E p \in 2..N : Sr.segs[p] = <<"**">> /\
+                 Alg("starstar", [n \in 1..(MaxTplLen + 2 - N) |->
+                        [Sr EXCEPT !.segs = SubSeq(@, 1, p - 1) \o [k \in 1..(n - 1) |-> <<"*">>] \o SubSeq(@, p + 1, Len(@))]], <<"starstar">>)
+\* a filter on a key that the search leaves open ('*' at that level)
+DeriveFilter == Sr.query = <<>> /\ call.span = 0 /\ \E i \in 2..N : Sr.segs[i] = <<"*">> /\ i <= Len(Templates[call.t].ph) /\
+                 \* "a key that the searched types have": every type the search unfolds to owns the key
+                 (\A u \in Unfold(Sr).res : PhKey(BasePh(i)) \in TKeys(IdxOf(u.type))) /\
+                 \E v \in {FirstConcrete(BasePh(i)), NthConcrete(BasePh(i), 2)} :
+                    Alg("filter", <<Sr, [Sr EXCEPT !.query = << <<PhKey(BasePh(i)), <<v>> >> >>]>>, <<PhKey(BasePh(i)), v>>)
+DeriveLiteral == call.span = 0 /\ \E i \in 2..N : Sr.segs[i] = <<"*">> /\ i <= Len(Templates[call.t].ph) /\
+                 (\A q \in DOMAIN Sr.query : Sr.query[q][1] # PhKey(BasePh(i)) /\ Sr.query[q][1] \in TKeys(call.t)) /\
+                 \E v \in {FirstConcrete(BasePh(i)), NthConcrete(BasePh(i), 2)} :
+                    Alg("literal", <<Sr, [Sr EXCEPT !.segs[i] = <<v>>]>>, <<i, v>>)
+Derive == Family = "algebra" /\ call.op # "algebra" /\
+          (DeriveComma \/ DeriveCommaQ \/ DeriveAlias \/ DeriveAliasQ \/ DeriveStarStar \/ DeriveFilter \/ DeriveLiteral)
+Next == \/ call.op # "algebra" /\ edits < MaxEdits /\ Edit /\ edits' = edits + 1
+        \/ Derive /\ UNCHANGED edits
 Spec == Init /\ [][Next]_vars
 
 (* ---------------- invariants on the specification ---------------- *)
@@ -77,10 +111,23 @@ NoDoubleStarLeft == \A x \in U.res : \A j \in DOMAIN x.segs : x.segs[j] # "**" /
 LeafOnlyAfterExpand == (U.err = "" /\ \E i \in 2..N : Sr.segs[i] = <<"**">>) =>
                           \A x \in U.res : LastKey(IdxOf(x.type)) = LeafKeyOf(BaseOfName(x.type))
 \* list search on the model: result is a sub-collection of L, and '>' picks one per group
-L == IF call.univ = "" THEN {} ELSE Universe(call.univ)
-FL == FindList(SetToSeq(L), Sr)
+L == IF call.univ = "" THEN {} ELSE UniverseTable[call.univ]
+FL == FindList(IF call.univ = "" THEN <<>> ELSE UniverseSeq(call.univ), Sr)
 FindSubset == Family = "findlist" => FL.res \subseteq L
 GtOnePerGroup == (Family = "findlist" /\ FL.sorted /\ FL.pre /\ FL.err = "") =>
    LET p == GtPos(CHOOSE u \in U.res : HasGt(u)) IN
       \A a, b \in FL.res : SubSeq(a, 1, p - 1) = SubSeq(b, 1, p - 1) => a = b
+\* C10 on the model: the algebra of the search syntax, for list search over the universe
+FLof(sr) == FindList(UniverseSeq(call.univ), sr)
+NaturalOf(e) == ResolveFirst(e)
+IsLeafEntry(e) == LET x == NaturalOf(e) IN x.type # "" /\ KeyType(x) = LeafKeyOf(BaseOfName(x.type))
+\* "restricted to leaf types": keep what a LEAF-typed unfolded form of the part matches
+LeafRestricted(sr, res) == {e \in res : \E u \in Unfold(sr).res : LastKey(IdxOf(u.type)) = LeafKeyOf(BaseOfName(u.type)) /\ MatchSegs(u.segs, e)}
+AlgebraHolds == call.op = "algebra" =>
+   LET whole == FLof(call.search)  parts == [i \in DOMAIN call.parts |-> FLof(call.parts[i])] IN
+   IF whole.err # "" \/ \E i \in DOMAIN parts : parts[i].err # "" THEN TRUE
+   ELSE IF call.rule = "union" THEN whole.res = UNION {parts[i].res : i \in DOMAIN parts}
+   ELSE IF call.rule = "starstar" THEN whole.res = UNION {LeafRestricted(call.parts[i], parts[i].res) : i \in DOMAIN parts}
+   ELSE IF call.rule = "filter" THEN parts[2].res = {e \in parts[1].res : DGetOr(NaturalOf(e).fields, call.arg[1], "") = call.arg[2]}
+   ELSE parts[2].res = {e \in parts[1].res : e[call.arg[1]] = call.arg[2]}
 =============================================================================
